@@ -687,6 +687,33 @@ func c01Completeness(c *an.Ctx) {
 			c.Bad("R8", shortFn(s.fn)+": iterates "+s.over, fn.Pos(), "no loop found in a function that must visit every element of "+s.over)
 		}
 	}
+	// the evaluation loops of a rule offer every target, every selected value and every transformed value to the
+	// operator: none of them is left from inside (which value comes first depends on map iteration order, so an
+	// early exit also makes the match data vary between runs)
+	if de := c.Fn("R8", "internal/corazawaf.(*Rule).doEvaluate"); de != nil {
+		nEv := 0
+		for _, li := range an.Loops(de) {
+			over := tempName.ReplaceAllString(li.Over, "")
+			what := ""
+			switch {
+			case over == "r.variables":
+				what = "the rule's targets"
+			case strings.HasPrefix(over, "tx.GetField("):
+				what = "the values selected by a target"
+			case strings.HasPrefix(over, "*args[") || strings.HasPrefix(over, "φ(r.transformArg("):
+				what = "the transformed values of one selected value"
+			default:
+				continue
+			}
+			nEv++
+			if c.P.Cfg.Name == "multiphase" {
+				continue // the multiphase build re-evaluates and de-duplicates with its own exits (not decided)
+			}
+			c.Check(!li.EarlyExit, "R8", "doEvaluate: the loop over "+what+" is complete", li.Pos.Pos(), "no exit from inside the loop body",
+				"the loop over "+what+" can be left from inside: the remaining values are never offered to the operator, so matches are missed and the reported match data is incomplete (and, values being selected in map order, differs between runs)")
+		}
+		c.MinCount("R8", "evaluation loops in doEvaluate", nEv, 3)
+	}
 	// concat views relabel with their own variable
 	for _, name := range []string{"internal/collections.(*ConcatCollection).FindAll", "internal/collections.(*ConcatKeyed).FindAll", "internal/collections.(*ConcatKeyed).FindRegex", "internal/collections.(*ConcatKeyed).FindString"} {
 		fn := c.P.Func(name)
